@@ -1,4 +1,9 @@
-"""C19 Channel files behave like files over the concatenated items."""
+"""C19 Channel files behave like files over the concatenated items.
+
+All obligations are phrased over value terms and call events along the feasible
+paths of the (helper-inlined) functions -- see sa/terms.py -- so they do not depend
+on variable names, hoisting, branch order or loop form.
+"""
 
 from __future__ import annotations
 
@@ -7,9 +12,31 @@ import ast
 from ..cfg import Oracle, build_cfg
 from ..index import AnalysisError, UNKNOWN, norm, unparse
 from ..report import Ctx, Obligation
-from ..util import Facts, callee_attr, calls_in_node, cfg_nodes_with_call
+from ..terms import NONE, Evaluator, const, evaluator, implies, mentions, show, subterms, tv
+from ..util import callee_attr, xtext
 
 GB = "gateway_base"
+BUF = ("sym", "self._buffer")
+NL = const("\n")
+
+
+def _recv_oracle(repo, fi):
+    """receive() ends with EOFError; read() (used by readline) raises nothing it handles itself"""
+    return Oracle(repo, fi, precise=True, call_raises=lambda c, f: [("EOFError", True)] if callee_attr(c) == "receive" else None)
+
+
+def all_paths(ev: Evaluator, limit: int = 20000):
+    heads = {n.id for n in ev.cfg.nodes if n.kind in ("test", "for") and isinstance(n.owner, (ast.While, ast.For))}
+    return ev.run(back_stops=heads, limit=limit)
+
+
+def _is_receive(t) -> bool:
+    return isinstance(t, tuple) and t[0] == "fresh" and str(t[2]).endswith(".receive")
+
+
+def _says_ge(cond, a, b) -> bool:
+    """the path condition contains `not (a < b)` / `a >= b`"""
+    return (("cmp", "lt", a, b), False) in cond or (("cmp", "ge", a, b), True) in cond or (("cmp", "gt", b, a), False) in cond or (("cmp", "le", b, a), True) in cond
 
 
 def check_stream_reassembly(ctx: Ctx, prefix: str) -> None:
@@ -18,46 +45,78 @@ def check_stream_reassembly(ctx: Ctx, prefix: str) -> None:
     repo = ctx.repo
     fr = repo.func(f"{GB}.ChannelFileRead.read")
     n = [p for p in fr.params() if p != "self"][0]
+    N = ("sym", n)
+    ev = evaluator(repo, fr, _recv_oracle(repo, fr))
+    cfg = ev.cfg
+    paths = list(all_paths(ev))
+    normal = [(p, st) for (p, st) in paths if cfg.nodes[p[-1][0]].kind == "return" and p[-1][0] == cfg.exit.id]
+
     with ctx.obligation(f"{prefix}.a", "partition") as ob:
-        slices = [x for x in repo.own_nodes(fr) if isinstance(x, ast.Subscript) and unparse(x.value) == "self._buffer" and isinstance(x.slice, ast.Slice)]
-        texts = sorted(unparse(s) for s in slices)
-        ob.site(fr, slices[0] if slices else fr.node, "returned and retained slices are complementary", slices=texts)
-        if texts != sorted([f"self._buffer[:{n}]", f"self._buffer[{n}:]"]):
-            ob.violation(fr, slices[0] if slices else fr.node, f"read() splits the buffer into {texts}: not the complementary pair [:{n}] / [{n}:] -- characters are lost or returned twice")
-        else:
-            ret_src = [x for x in repo.own_nodes(fr) if isinstance(x, ast.Assign) and unparse(x.value) == f"self._buffer[:{n}]"]
-            keep = [x for x in repo.own_nodes(fr) if isinstance(x, ast.Assign) and unparse(x.targets[0]) == "self._buffer" and unparse(x.value) == f"self._buffer[{n}:]"]
-            rets = [x for x in repo.own_nodes(fr) if isinstance(x, ast.Return)]
-            ok = len(ret_src) == 1 and len(keep) == 1 and len(rets) == 1 and unparse(rets[0].value) == unparse(ret_src[0].targets[0]) and ret_src[0].lineno < keep[0].lineno
+        ob.require(len(normal) >= 2, f"ChannelFileRead.read: {len(normal)} normal paths (floor 2)")
+        nsplit = 0
+        for (p, st) in normal:
+            ret = st.ret if st.ret is not None else NONE
+            keep = st.env.get("self._buffer", BUF)
+            if ret == const(""):
+                ok = tv(("cmp", "is", keep, NONE), st.known) is True
+                ob.site(fr, fr.node, "'' is returned only when nothing was ever buffered", ok=ok)
+                if not ok:
+                    ob.violation(fr, fr.node, "read() returns '' although the buffer may hold data: characters are lost", construct="'' with data buffered")
+                continue
+            ok = ret[0] == "slice" and ret[2] is None and ret[3] == N and keep == ("slice", ret[1], N, None)
+            nsplit += 1
+            ob.site(fr, fr.node, "returned and retained slices are complementary", returned=show(ret), kept=show(keep), ok=ok)
             if not ok:
-                ob.violation(fr, fr.node, "the head slice is not what read() returns / the tail slice is not what it keeps (in this order)")
+                ob.violation(fr, fr.node, f"read() returns {show(ret)} and keeps {show(keep)}: not the complementary pair [:{n}] / [{n}:] of one buffer value -- characters are lost or returned twice",
+                             construct="returned/kept slices not complementary")
+            elif tv(("cmp", "is", ret[1], NONE), st.known) is True:
+                ob.violation(fr, fr.node, "read() on a channel that ended without data does not return the empty string", construct="slices None")
+        ob.require(nsplit >= 1, "ChannelFileRead.read: no path returns a slice of the buffer")
+
     with ctx.obligation(f"{prefix}.b", "append-order") as ob:
-        recv = [c for c in repo.calls_in(fr) if callee_attr(c) == "receive"]
-        ob.require(len(recv) >= 1, "ChannelFileRead.read: no receive()")
-        for c in recv:
-            # walk up through cast(...)
-            node = c
-            par = repo.parent(node)
-            while isinstance(par, ast.Call) and isinstance(par.func, ast.Name) and par.func.id == "cast":
-                node, par = par, repo.parent(par)
-            ok = (isinstance(par, ast.AugAssign) and isinstance(par.op, ast.Add) and unparse(par.target) == "self._buffer") or \
-                 (isinstance(par, ast.Assign) and unparse(par.targets[0]) == "self._buffer" and (par.value is node or unparse(par.value).startswith("self._buffer +")))
-            ob.site(fr, c, "received item is appended at the end of the buffer", ok=ok)
-            if not ok:
-                ob.violation(fr, c, "a received item is not appended at the end of the buffer (items would be reordered or dropped)")
-            if isinstance(par, ast.Assign) and par.value is node:
-                # plain assignment only when the buffer is empty/None
-                cfg = build_cfg(repo, fr, Oracle(repo, fr, precise=True))
-                for nd in cfg.node_containing(c):
-                    f = Facts(repo, fr, {})
-                    for (t, lab) in cfg.guards(nd.id):
-                        if t.kind == "test":
-                            f.assume(t.ast, lab == "true")
-                    if f.get("self._buffer is None") is not True:
-                        ob.violation(fr, c, "the buffer is overwritten by a received item while it may still hold unread data")
-        loops = [x for x in repo.own_nodes(fr) if isinstance(x, ast.While)]
-        if len(loops) != 1 or unparse(loops[0].test) != f"len(self._buffer) < {n}":
-            ob.violation(fr, loops[0] if loops else fr.node, f"read({n}) does not keep receiving while fewer than {n} characters are buffered")
+        nrecv = 0
+        seen_nodes = set()
+        for (p, st) in paths:
+            for e in st.events:
+                if e.kind != "assign" or e.target != "self._buffer":
+                    continue
+                V, O = e.value, e.old if e.old is not None else BUF
+                cond = st.cond[:e.ncond]
+                if _is_receive(V):
+                    ok = tv(("cmp", "is", O, NONE), dict((t, v) for (t, v) in cond)) is True
+                    what = "a received item replaces the buffer only while it is None"
+                    bad = "the buffer is overwritten by a received item while it may still hold unread data"
+                    nrecv += 1
+                elif V[0] == "bin" and V[1] == "Add" and (_is_receive(V[3]) or _is_receive(V[2])):
+                    ok = V[2] == O and _is_receive(V[3])
+                    what = "received item is appended at the end of the buffer"
+                    bad = "a received item is not appended at the end of the buffer (items would be reordered or dropped)"
+                    nrecv += 1
+                elif V[0] == "slice":
+                    ok = V == ("slice", O, N, None) or (V[1] != O and V[2] == N and V[3] is None)
+                    what = "the tail slice is kept"
+                    bad = "read() keeps something else than the tail of the buffer"
+                    if V[1] != O and V[1] != BUF and not (V[1][0] == "havoc"):
+                        ok = False
+                else:
+                    ok, what, bad = False, "buffer store", f"the buffer is set to {show(V)}: not a received item appended / the unread tail"
+                if id(e.node) not in seen_nodes or not ok:
+                    ob.site(fr, e.node, what, ok=ok)
+                    seen_nodes.add(id(e.node))
+                if not ok:
+                    ob.violation(fr, e.node, bad)
+        ob.require(nrecv >= 1, "ChannelFileRead.read: no receive()")
+        # without EOF, read(n) returns only once n characters are buffered
+        for (p, st) in normal:
+            if any(e.raised for e in st.events if e.kind == "call"):
+                continue
+            ret = st.ret
+            if ret is None or ret[0] != "slice":
+                continue
+            B = ret[1]
+            if not _says_ge(st.cond, ("pcall", "len", (B,), ()), N):
+                ob.violation(fr, fr.node, f"read({n}) does not keep receiving while fewer than {n} characters are buffered", construct="short read without EOF")
+
     with ctx.obligation(f"{prefix}.c", "single-consumer") as ob:
         writers = sorted({fi.short for fi in repo.scan_funcs() for x in repo.own_nodes(fi)
                           if isinstance(x, ast.Attribute) and x.attr == "_buffer" and isinstance(x.ctx, ast.Store) and fi.module.name == GB})
@@ -66,7 +125,7 @@ def check_stream_reassembly(ctx: Ctx, prefix: str) -> None:
             ob.violation(fr, fr.node, f"ChannelFileRead._buffer is written by {writers}", construct=f"writers {writers}")
         frl = repo.func(f"{GB}.ChannelFileRead.readline")
         for x in repo.own_nodes(frl):
-            if isinstance(x, ast.Subscript) and unparse(x.value) == "self._buffer":
+            if isinstance(x, ast.Subscript) and xtext(repo, frl, x.value) == "self._buffer":
                 ob.violation(frl, x, "readline slices the buffer itself instead of consuming through read()")
             if isinstance(x, ast.Call) and callee_attr(x) == "receive":
                 ob.violation(frl, x, "readline receives items itself instead of consuming through read()")
@@ -74,104 +133,223 @@ def check_stream_reassembly(ctx: Ctx, prefix: str) -> None:
         ob.site(frl, None, "readline consumes only through read()", read_calls=nread)
 
 
+def _is_read(t) -> bool:
+    return isinstance(t, tuple) and t[0] == "fresh" and t[2] == "self.read"
+
+
 def check(ctx: Ctx) -> None:
     repo = ctx.repo
-    ctx.decides = ("read(n): returned and retained slices are complementary, new items are appended, the buffer is written only by read, readline "
-                   "consumes only through read, EOF yields the remainder and then ''; readline returns through the first newline; write() is exactly one "
-                   "send, flush does nothing, close closes the channel iff proxyclose, makefile maps 'r'/'w' to the two classes and forwards proxyclose.")
+    ctx.decides = ("read(n): returned and retained slices are complementary slices of one buffer value, new items are appended, the buffer is written only "
+                   "by read, readline consumes only through read, EOF yields the remainder and then ''; readline returns through the first newline, never "
+                   "reads past it and stops at EOF; write() is exactly one send, flush does nothing, close closes the channel iff proxyclose, makefile maps "
+                   "'r'/'w' to the two classes and forwards proxyclose.  Decided over value terms along all feasible CFG paths (helpers inlined).")
     ctx.not_decided = "equality with file semantics for all call sequences (only stream integrity and the readline shape)."
     check_stream_reassembly(ctx, "C19")
     fr = repo.func(f"{GB}.ChannelFileRead.read")
     frl = repo.func(f"{GB}.ChannelFileRead.readline")
 
     with ctx.obligation("C19.d", "eof-empty") as ob:
-        hs = [h for x in repo.own_nodes(fr) if isinstance(x, ast.Try) for h in x.handlers]
-        ok = len(hs) == 1 and hs[0].type is not None and unparse(hs[0].type) == "EOFError" and not any(isinstance(y, ast.Raise) for y in ast.walk(hs[0]))
-        ob.site(fr, hs[0] if hs else fr.node, "EOFError from receive ends the read with what is buffered", ok=ok)
-        if not ok:
-            ob.violation(fr, fr.node, "read() does not turn the channel's EOFError into 'return what is left'")
-        cfg = build_cfg(repo, fr, Oracle(repo, fr, precise=True))
-        emp = [nd for nd in cfg.nodes if isinstance(nd.ast, ast.Assign) and repo.fold_in(nd.ast.value, fr) == "" and nd.id in cfg.live()]
+        ev = evaluator(repo, fr, _recv_oracle(repo, fr))
+        cfg = ev.cfg
+        neof = 0
+        for (p, st) in all_paths(ev):
+            eof = [e for e in st.events if e.kind == "call" and e.raised and e.attr == "receive"]
+            if not eof:
+                continue
+            end = cfg.nodes[p[-1][0]]
+            if end.kind == "raise":
+                ob.violation(fr, eof[0].node, "read() does not turn the channel's EOFError into 'return what is left'")
+            elif end.id == cfg.exit.id:
+                neof += 1
+        ob.site(fr, fr.node, "EOFError from receive ends the read with what is buffered", paths=neof)
+        if neof == 0:
+            ob.violation(fr, fr.node, "read() does not turn the channel's EOFError into 'return what is left'", construct="no EOF path returns")
+        # nothing ever received -> '' (the None buffer is never sliced): part of the partition obligation's path walk
         good = False
-        for nd in emp:
-            f = Facts(repo, fr, {})
-            for (t, lab) in cfg.guards(nd.id):
-                if t.kind == "test":
-                    f.assume(t.ast, lab == "true")
-            if f.get("self._buffer is None") is True:
+        for (p, st) in all_paths(ev):
+            if p[-1][0] == cfg.exit.id and st.ret == const("") and tv(("cmp", "is", st.env.get("self._buffer", BUF), NONE), st.known) is True:
                 good = True
-        ob.site(fr, emp[0].ast if emp else fr.node, "nothing ever received -> ''", ok=good)
+            if p[-1][0] == cfg.exit.id and st.ret is not None and st.ret[0] == "slice" and tv(("cmp", "is", st.ret[1], NONE), st.known) is True:
+                good = False
+                break
+        ob.site(fr, fr.node, "nothing ever received -> ''", ok=good)
         if not good:
             ob.violation(fr, fr.node, "read() on a channel that ended without data does not return the empty string")
-        # readline: through the first newline
-        finds = [c for c in repo.calls_in(frl) if callee_attr(c) == "find"]
-        ok = len(finds) == 1 and repo.fold_in(finds[0].args[0], frl) == "\n" and unparse(finds[0].func.value) == "self._buffer"
-        iv = unparse(repo.parent(finds[0]).targets[0]) if ok and isinstance(repo.parent(finds[0]), ast.Assign) else None
-        rd = [c for c in repo.calls_in(frl) if callee_attr(c) == "read" and iv and unparse(c.args[0]) == f"{iv} + 1"]
-        ob.site(frl, finds[0] if finds else frl.node, "readline returns through the first buffered newline (read(i + 1))", ok=bool(rd))
-        if not (ok and rd):
-            ob.violation(frl, frl.node, "readline does not return exactly through the first newline of the buffer")
-        wl = [x for x in repo.own_nodes(frl) if isinstance(x, ast.While)]
-        okw = len(wl) == 1 and unparse(wl[0].test) in ("line and line[-1] != '\\n'",)
-        ob.site(frl, wl[0] if wl else frl.node, "readline extends character-wise until newline or EOF", ok=okw)
-        if not okw:
-            ob.violation(frl, wl[0] if wl else frl.node, "readline's continuation loop does not stop at the first newline")
-        else:
-            one = [c for s_ in wl[0].body for c in ast.walk(s_) if isinstance(c, ast.Call) and callee_attr(c) == "read"]
-            if len(one) != 1 or repo.fold_in(one[0].args[0], frl) != 1:
-                ob.violation(frl, wl[0], "readline over-reads past the newline (continuation step is not read(1))")
-            brk = [s_ for s_ in wl[0].body if isinstance(s_, ast.If) and any(isinstance(y, ast.Break) for y in s_.body)]
-            if not brk:
-                ob.violation(frl, wl[0], "readline does not stop at EOF")
-            app = [s_ for s_ in wl[0].body if isinstance(s_, ast.AugAssign) and unparse(s_.target) == "line"]
-            if len(app) != 1:
-                ob.violation(frl, wl[0], "readline does not append the characters it read")
+
+        # ---- readline
+        evl = evaluator(repo, frl)
+        cl = evl.cfg
+        FIND = ("pcall", "self._buffer.find", (NL,), ())
+        LEN = ("pcall", "len", (BUF,), ())
+        paths = list(all_paths(evl))
+        ob.require(len(paths) >= 2, "readline: no paths")
+        heads = {n.id for n in cl.nodes if n.kind in ("test", "for") and isinstance(n.owner, (ast.While, ast.For))}
+
+        def has_nl(cond) -> bool | None:
+            out = set()
+            for (t, v) in cond:
+                if t[0] == "cmp" and t[2] == FIND and t[3][0] == "const":
+                    r = {("eq", -1): False, ("lt", 0): False, ("le", -1): False, ("ge", 0): True, ("gt", -1): True}.get((t[1], t[3][1]))
+                    if r is not None:
+                        out.add(r == v)
+            return out.pop() if len(out) == 1 else None
+
+        through_nl = 0
+        for (p, st) in paths:
+            order = [nid for (nid, _l) in p]
+            for e in st.events:
+                if e.kind == "call" and e.callee == "self.read":
+                    A = e.args[0] if e.args else e.kwargs.get("n")
+                    cond = st.cond[:e.ncond]
+                    in_loop = any(h in order and order.index(h) < order.index(e.nid) for h in heads) if e.nid in order else False
+                    if A == ("bin", "Add", FIND, const(1)) or A == ("bin", "Add", const(1), FIND):
+                        ok = has_nl(cond) is True and not in_loop
+                        what = "readline takes the buffered text through its first newline (read(i + 1))"
+                        bad = "readline does not return exactly through the first newline of the buffer"
+                    elif A in (("bin", "Add", LEN, const(1)), ("bin", "Add", const(1), LEN)):
+                        ok = has_nl(cond) is False and not in_loop
+                        what = "without a buffered newline readline takes the whole buffer plus one character"
+                        bad = "readline reads the whole buffer although it may contain a newline: it returns text past the first newline"
+                    elif A == const(1):
+                        ok = True
+                        what = "continuation step read(1)"
+                        bad = ""
+                        if in_loop:
+                            # only while the line so far is non-empty and does not end in a newline
+                            hv = [t for t in set(subterms(tuple(c for (c, _v) in cond))) if t[0] == "havoc" and "." not in str(t[2])]
+                            ok = any(implies(cond, ("and", L, ("cmp", "ne", ("idx", L, const(-1)), NL))) for L in hv)
+                            bad = "readline's continuation loop does not stop at the first newline"
+                    else:
+                        ok = False
+                        what = "read() call of readline"
+                        bad = f"readline over-reads past the newline (read({show(A)}) is neither through the first newline, the newline-free buffer plus one, nor one character)"
+                    ob.site(frl, e.node, what, ok=ok, arg=show(A))
+                    if not ok:
+                        ob.violation(frl, e.node, bad)
+                elif e.kind == "assign" and any(_is_read(x) for x in subterms(e.value)) and e.target != "self._buffer":
+                    V, O = e.value, e.old
+                    ok = _is_read(V) or (V[0] == "bin" and V[1] == "Add" and V[2] == O and _is_read(V[3]))
+                    if not ok:
+                        ob.violation(frl, e.node, "readline does not append the characters it read")
+            end = cl.nodes[p[-1][0]]
+            if end.id == cl.exit.id:
+                T = st.ret if st.ret is not None else NONE
+                if _is_read(T):
+                    rd = [e for e in st.events if e.kind == "call" and e.result == T]
+                    A = rd[0].args[0] if rd and rd[0].args else None
+                    if A in (("bin", "Add", FIND, const(1)), ("bin", "Add", const(1), FIND)):
+                        through_nl += 1
+                        continue
+                    L = T
+                elif T[0] in ("havoc", "bin") or _is_read(T):
+                    L = T
+                else:
+                    ob.violation(frl, frl.node, f"readline returns {show(T)}: not text assembled from read()")
+                    continue
+                reads = [e.result for e in st.events if e.kind == "call" and e.callee == "self.read" and e.result != L]
+                stop = ["or", ("not", L), ("cmp", "eq", ("idx", L, const(-1)), NL)]
+                if reads:
+                    stop.append(("not", reads[-1]))
+                ok = implies(st.cond, tuple(stop)) is True
+                ob.site(frl, frl.node, "readline returns the accumulated line only at a newline or at EOF", ok=ok)
+                if not ok:
+                    ob.violation(frl, frl.node, "readline's continuation loop does not stop at the first newline", construct="returns a partial line")
+            elif end.id in heads and p[-1][1] != "":
+                # one more trip round the continuation loop: only after a non-empty read
+                reads = [e.result for e in st.events if e.kind == "call" and e.callee == "self.read" and any(h in [x for (x, _l) in p] and [x for (x, _l) in p].index(h) < [x for (x, _l) in p].index(e.nid) for h in heads)]
+                if reads and tv(reads[-1], st.known) is not True:
+                    ob.violation(frl, frl.node, "readline does not stop at EOF")
+        ob.site(frl, frl.node, "readline returns through the first buffered newline (read(i + 1)) or character-wise", through_newline_paths=through_nl)
 
     with ctx.obligation("C19.e", "write-side") as ob:
         fw = repo.func(f"{GB}.ChannelFileWrite.write")
-        sends = [c for c in repo.calls_in(fw) if callee_attr(c) == "send"]
-        p = [x for x in fw.params() if x != "self"][0]
-        ok = len(sends) == 1 and len(repo.calls_in(fw)) == 1 and unparse(sends[0].args[0]) == p and unparse(sends[0].func.value) == "self.channel" \
-            and not any(isinstance(x, (ast.For, ast.While, ast.If)) for x in repo.own_nodes(fw))
-        ob.site(fw, sends[0] if sends else fw.node, "write(x) = exactly one channel.send(x)", ok=ok)
+        pw = [x for x in fw.params() if x != "self"][0]
+        evw = evaluator(repo, fw)
+        wp = list(all_paths(evw))
+        ok = bool(wp)
+        for (p, st) in wp:
+            calls = [e for e in st.events if e.kind == "call" and e.result[0] == "fresh"]
+            if evw.cfg.nodes[p[-1][0]].id != evw.cfg.exit.id:
+                continue
+            if not (len(calls) == 1 and calls[0].callee == "self.channel.send" and calls[0].args == (("sym", pw),) and not calls[0].kwargs):
+                ok = False
+        ok = ok and not any(isinstance(x, (ast.For, ast.While)) for x in repo.own_nodes(fw))
+        ob.site(fw, fw.node, "write(x) = exactly one channel.send(x)", ok=ok)
         if not ok:
             ob.violation(fw, fw.node, "ChannelFileWrite.write does not deliver each write as exactly one unmodified item")
         ff = repo.func(f"{GB}.ChannelFileWrite.flush")
         if repo.calls_in(ff) or any(isinstance(x, (ast.Assign, ast.Raise)) for x in repo.own_nodes(ff)):
             ob.violation(ff, ff.node, "flush() is not harmless")
         fc = repo.func(f"{GB}.ChannelFile.close")
-        cfg = build_cfg(repo, fc, Oracle(repo, fc, precise=True))
-        cl = cfg_nodes_with_call(cfg, lambda c: callee_attr(c) == "close" and unparse(c.func.value) == "self.channel")
-        ok = False
-        if len(cl) == 1:
-            f = Facts(repo, fc, {})
-            for (t, lab) in cfg.guards(cl[0].id):
-                if t.kind == "test":
-                    f.assume(t.ast, lab == "true")
-            ok = f.get("self._proxyclose") is True and len(f.env) == 1
-        ob.site(fc, cl[0].ast if cl else fc.node, "close() closes the channel iff proxyclose was requested", ok=ok)
+        evc = evaluator(repo, fc)
+        PC = ("sym", "self._proxyclose")
+        ok = True
+        npaths = 0
+        for (p, st) in all_paths(evc):
+            if p[-1][0] != evc.cfg.exit.id:
+                continue
+            npaths += 1
+            closes = [e for e in st.events if e.kind == "call" and e.callee == "self.channel.close"]
+            want = st.known.get(PC)
+            if want is None or (len(closes) == 1) != want or len(closes) > 1 or any(t != PC for (t, _v) in st.cond):
+                ok = False
+        ok = ok and npaths >= 2
+        ob.site(fc, fc.node, "close() closes the channel iff proxyclose was requested", ok=ok)
         if not ok:
             ob.violation(fc, fc.node, "ChannelFile.close does not close the channel exactly when proxyclose was requested")
         fi = repo.func(f"{GB}.ChannelFile.__init__")
-        st = [x for x in repo.own_nodes(fi) if isinstance(x, ast.Assign) and unparse(x.targets[0]) == "self._proxyclose"]
-        if len(st) != 1 or unparse(st[0].value) != "proxyclose":
-            ob.violation(fi, fi.node, "the proxyclose request is not stored unmodified")
+        evi = evaluator(repo, fi)
+        for (p, st) in all_paths(evi):
+            if p[-1][0] == evi.cfg.exit.id and st.env.get("self._proxyclose") != ("sym", "proxyclose"):
+                ob.violation(fi, fi.node, "the proxyclose request is not stored unmodified")
         fm = repo.func(f"{GB}.Channel.makefile")
-        cfgm = build_cfg(repo, fm, Oracle(repo, fm, precise=True))
+        evm = evaluator(repo, fm)
+        MODE = ("sym", "mode")
+        mapping: dict[str, str] = {}
+        raises_other = False
+        for (p, st) in all_paths(evm):
+            end = evm.cfg.nodes[p[-1][0]]
+            if end.kind == "raise":
+                rs = [e for e in st.events if e.kind == "raise"]
+                if rs and rs[-1].value[0] == "fresh" and rs[-1].value[2] == "ValueError":
+                    raises_other = True
+                continue
+            if end.id != evm.cfg.exit.id or st.ret is None:
+                continue
+            mk = [e for e in st.events if e.kind == "call" and e.result == st.ret]
+            if not mk:
+                ob.violation(fm, fm.node, f"makefile returns {show(st.ret)}: not a channel file object")
+                continue
+            e = mk[0]
+            argsok = (e.kwargs == {"channel": ("sym", "self"), "proxyclose": ("sym", "proxyclose")} and not e.args) or (e.args == (("sym", "self"), ("sym", "proxyclose")) and not e.kwargs) \
+                or (e.args == (("sym", "self"),) and e.kwargs == {"proxyclose": ("sym", "proxyclose")})
+            got: dict[str, str] = {}
+            if e.callee in ("ChannelFileWrite", "ChannelFileRead"):
+                modes = [t[3][1] for (t, v) in st.cond if v is True and t[0] == "cmp" and t[1] == "eq" and t[2] == MODE and t[3][0] == "const"]
+                modes += [t[2][1] for (t, v) in st.cond if v is True and t[0] == "cmp" and t[1] == "eq" and t[3] == MODE and t[2][0] == "const"]
+                if len(modes) != 1:
+                    ob.violation(fm, e.node, f"makefile builds {e.callee} without testing the mode")
+                    continue
+                got[modes[0]] = e.callee
+            elif e.recv is not None and e.recv[0] == "idx" and e.recv[1][0] == "dict" and e.recv[2] == MODE:
+                for (k, v) in e.recv[1][1:]:
+                    if k[0] == "const" and v[0] == "sym":
+                        got[k[1]] = v[1]
+            else:
+                ob.violation(fm, e.node, f"makefile returns the result of {show(e.recv) if e.recv else e.callee}: the mode -> class mapping is not recognisable")
+                continue
+            for m_, c_ in got.items():
+                ob.site(fm, e.node, f"makefile('{m_}') -> {c_}(channel=self, proxyclose=proxyclose)", ok=argsok)
+                if not argsok:
+                    ob.violation(fm, e.node, f"makefile does not map mode '{m_}' to {c_} with the requested proxyclose")
+                if m_ in mapping and mapping[m_] != c_:
+                    ob.violation(fm, e.node, f"makefile maps mode '{m_}' to two classes")
+                mapping[m_] = c_
         for cls, mode in (("ChannelFileWrite", "w"), ("ChannelFileRead", "r")):
-            mk = cfg_nodes_with_call(cfgm, lambda c: isinstance(c.func, ast.Name) and c.func.id == cls)
-            ob.require(len(mk) == 1, f"makefile: {cls} construction not found")
-            f = Facts(repo, fm, {})
-            for (t, lab) in cfgm.guards(mk[0].id):
-                if t.kind == "test":
-                    f.assume(t.ast, lab == "true")
-            c = [x for x in calls_in_node(mk[0]) if isinstance(x.func, ast.Name) and x.func.id == cls][0]
-            kw = {k.arg: unparse(k.value) for k in c.keywords}
-            pos = [unparse(a) for a in c.args]
-            ok = f.get(f"mode == '{mode}'") is True and (kw == {"channel": "self", "proxyclose": "proxyclose"} or pos == ["self", "proxyclose"])
-            ob.site(fm, c, f"makefile('{mode}') -> {cls}(channel=self, proxyclose=proxyclose)", ok=ok)
-            if not ok:
-                ob.violation(fm, c, f"makefile does not map mode '{mode}' to {cls} with the requested proxyclose")
+            if mapping.get(mode) != cls:
+                ob.violation(fm, fm.node, f"makefile does not map mode '{mode}' to {cls} with the requested proxyclose", construct=f"mode {mode} -> {mapping.get(mode)}")
+        if set(mapping) - {"w", "r"}:
+            ob.violation(fm, fm.node, f"makefile accepts modes {sorted(set(mapping) - {'w', 'r'})}")
         d = dict(zip([a.arg for a in fm.node.args.args][-len(fm.node.args.defaults):], [repo.fold_in(x, fm) for x in fm.node.args.defaults]))
         if d.get("proxyclose") is not False:
             ob.violation(fm, fm.node, "makefile's proxyclose default is not False")
